@@ -5,29 +5,26 @@ Model of `elexmodel.utils.math_utils.weighted_median` and `compute_inflate` (cal
 namespace ElexModel.MathUtils
 open ElexModel ElexModel.Conformal
 
-/-- running sums of the weights of a (value, weight) list -/
-def cums : Rat → List (Rat × Rat) → List Rat
-  | _, [] => []
-  | acc, (_, w) :: t => (acc + w) :: cums (acc + w) t
+/-- the *last* element whose running weight is `≤ 1/2` (`np.where(cum <= 0.5)[0][-1]`): its value, its running weight and the
+    value of the element after it -/
+def lastHalf : Rat → List (Rat × Rat) → Option (Rat × Rat × Option Rat)
+  | _, [] => none
+  | acc, (x, w) :: t =>
+    match lastHalf (acc + w) t with
+    | some r => some r
+    | none => if acc + w ≤ 1/2 then some (x, acc + w, t.head?.map Prod.fst) else none
 
-/-- index of the last running sum that is `≤ 1/2` (`np.where(cum <= 0.5)[0][-1]`), if any -/
-def lastLeHalf (cs : List Rat) : Option Nat :=
-  (List.range cs.length).foldl (fun r i => if cs.getD i 0 ≤ 1/2 then some i else r) none
-
-/-- `weighted_median(x, weights)` on pairs sorted by value (weights are expected to sum to 1) -/
+/-- `weighted_median(x, weights)` on pairs sorted by value (weights are expected to sum to 1): the smallest value if it alone
+    outweighs one half; otherwise the element after the last running weight `≤ 1/2`, or the midpoint with it when that running
+    weight is exactly `1/2`; no value if there is no element after it (IndexError in numpy) -/
 def wmedianSorted (s : List (Rat × Rat)) : Option Rat :=
   match s with
   | [] => none
   | (x0, w0) :: _ =>
     if 1/2 < w0 then some x0
-    else
-      let cs := cums 0 s
-      match lastLeHalf cs with
-      | none => none
-      | some i =>
-        match s[i + 1]? with
-        | none => none          -- every running sum is ≤ 1/2: the weights do not sum to more than 1/2 (IndexError in numpy)
-        | some nx => if cs.getD i 0 = 1/2 then some (((s.getD i (0, 0)).1 + nx.1) / 2) else some nx.1
+    else match lastHalf 0 s with
+      | some (x, a, some nx) => if a = 1/2 then some ((x + nx) / 2) else some nx
+      | _ => none
 
 def wmedian (xw : List (Rat × Rat)) : Option Rat := wmedianSorted (sortS xw)
 
